@@ -649,3 +649,201 @@ Lemma serial_inv : Sinv (length (outs c)) (serial_run c expire_at).
 Proof. apply serial_prefix_inv. lia. Qed.
 
 End Serial.
+
+(* ------------------------------------------------------------------ *)
+(* Termination: the fuel given by fuel_for always suffices *)
+Section Termination.
+Variable c : cfg.
+Hypothesis HW : 1 <= workers c.
+Let n := length (outs c).
+
+Definition Ile (s : st) : Prop := s_i s <= n.
+Definition Iwsub (s : st) : Prop := forall j, In j (s_waiting s) -> In j (s_submitted s).
+
+Lemma pop_length s a : length (snd (pop s a)) = length (s_sched s) - 1.
+Proof. unfold pop. destruct (s_sched s); simpl; lia. Qed.
+
+Lemma sync_frame s a p nx :
+  s_i (sync c s a p nx) = s_i s /\ s_submitted (sync c s a p nx) = s_submitted s /\
+  s_pc (sync c s a p nx) = nx /\
+  length (s_sched (sync c s a p nx)) = length (s_sched s) - 1 /\
+  (forall j, In j (s_waiting (sync c s a p nx)) -> In j (s_waiting s)).
+Proof.
+  pose proof (pop_length s a) as Hl. unfold sync.
+  destruct (pop s a) as [d r]. simpl in Hl.
+  destruct (fire_all_frame c s (d_done d)) as (_ & Hi & Hw & Hs & _).
+  cbn [s_i s_submitted s_pc s_sched s_waiting].
+  split; [exact Hi|]. split; [exact Hs|]. split; [reflexivity|]. split; [exact Hl|].
+  destruct p; rewrite Hw; [intros j Hj; apply filter_In in Hj; tauto|auto].
+Qed.
+
+Lemma step_Ile s : Ile s -> Ile (step c s).
+Proof.
+  unfold Ile, step. intros H. fold n.
+  destruct (s_pc s); try exact H;
+    try (destruct (sync_frame s true true PCheck) as (-> & _); exact H);
+    try (destruct (sync_frame s true true PShutdown) as (-> & _); exact H);
+    try (destruct (sync_frame s true false PDone) as (-> & _); exact H).
+  - destruct (s_i s <? n); [destruct (workers c <=? _)|]; exact H.
+  - destruct (stop_cond c s); exact H.
+  - destruct (length (s_waiting s) <? workers c); cbn [andb]; [|exact H].
+    destruct (s_i s <? n) eqn:E; [|exact H]. apply Nat.ltb_lt in E.
+    destruct (sync_frame (submit c s) false false PSubmit) as (-> & _). simpl. lia.
+Qed.
+
+Lemma step_Iwsub s : Iwsub s -> Iwsub (step c s).
+Proof.
+  unfold Iwsub, step. intros H.
+  destruct (s_pc s); try exact H.
+  - destruct (s_i s <? _); [destruct (workers c <=? _)|]; exact H.
+  - destruct (sync_frame s true true PCheck) as (_ & Hs & _ & _ & Hw). rewrite Hs. auto.
+  - destruct (stop_cond c s); exact H.
+  - destruct (_ && _); [|exact H].
+    destruct (sync_frame (submit c s) false false PSubmit) as (_ & Hs & _ & _ & Hw). rewrite Hs.
+    intros j Hj. apply Hw in Hj. simpl in *. destruct Hj as [->|Hj]; [now left|right; auto].
+  - destruct (sync_frame s true true PShutdown) as (_ & Hs & _ & _ & Hw). rewrite Hs. auto.
+  - destruct (sync_frame s true false PDone) as (_ & Hs & _ & _ & Hw). rewrite Hs. auto.
+Qed.
+
+(* a submitted, not yet completed task with a defined outcome completes when fired *)
+Lemma fire_completes s j :
+  In j (s_submitted s) -> j < n -> In j (s_compl (fire c s j)).
+Proof.
+  intros Hs Hj. unfold fire.
+  assert (E1 : memb j (s_submitted s) = true) by (apply memb_In; exact Hs). rewrite E1. simpl.
+  destruct (memb j (s_compl s)) eqn:E2; simpl; [apply memb_In; exact E2|].
+  destruct (nth_error (outs c) j) as [[v b|e]|] eqn:Eo.
+  - destruct (reducer c); simpl; now left.
+  - simpl. now left.
+  - apply nth_error_None in Eo. unfold n in Hj. lia.
+Qed.
+
+Lemma fire_all_completes js : forall s,
+  (forall j, In j js -> In j (s_submitted s) /\ j < n) ->
+  forall j, In j js -> In j (s_compl (fire_all c s js)).
+Proof.
+  unfold fire_all. induction js as [| k js IH]; intros s H j Hj; [destruct Hj|].
+  simpl. destruct Hj as [->|Hj].
+  - apply (fire_all_compl_mono c (fire c s j) js). apply fire_completes; apply H; now left.
+  - apply IH; [|exact Hj]. intros x Hx.
+    destruct (fire_frame c s k) as (_ & _ & _ & Hs & _). rewrite Hs. apply H. now right.
+Qed.
+
+Lemma filter_all_false {A} (f : A -> bool) l :
+  (forall x, In x l -> f x = false) -> filter f l = [].
+Proof.
+  induction l as [| x l IH]; intros H; [reflexivity|]. simpl.
+  rewrite (H x) by (now left). apply IH. intros y Hy. apply H. now right.
+Qed.
+
+Lemma sync_default_empties s nx :
+  s_sched s = [] -> (forall j, In j (s_waiting s) -> In j (s_submitted s) /\ j < n) ->
+  s_waiting (sync c s true true nx) = [].
+Proof.
+  intros E H. unfold sync, pop. rewrite E.
+  set (js := rev (s_waiting s)).
+  destruct (fire_all_frame c s js) as (_ & _ & Hw & _).
+  cbn [d_done d_expire s_waiting]. fold js. rewrite Hw.
+  apply filter_all_false. intros j Hj.
+  assert (Hc : In j (s_compl (fire_all c s js))).
+  { apply fire_all_completes; [|unfold js; apply in_rev in Hj; exact Hj].
+    intros x Hx. apply H. unfold js in Hx. apply in_rev. exact Hx. }
+  apply memb_In in Hc. rewrite Hc. reflexivity.
+Qed.
+
+Definition phi (s : st) : nat :=
+  let full := workers c <=? length (s_waiting s) in
+  let more := s_i s <? n in
+  match s_pc s with
+  | PDone => 0 | PShutdown => 1 | PAfter => 2
+  | PHead => if more then (if full then 10 else 7) else 3
+  | PWait => 9
+  | PCheck => if full then 12 else 6
+  | PSubmit => if more then (if full then 11 else 5) else 4
+  end.
+
+Definition Phi (s : st) : nat := 20 * ((n - s_i s) + length (s_sched s)) + phi s.
+
+Lemma phi_le s : phi s <= 12.
+Proof.
+  unfold phi. destruct (s_pc s); destruct (s_i s <? n);
+    destruct (workers c <=? length (s_waiting s)); lia.
+Qed.
+
+Lemma step_decreases s :
+  Ile s -> Iwsub s -> Iorder s -> s_pc s <> PDone -> Phi (step c s) < Phi s.
+Proof.
+  intros Hle Hws Hord Hpc. unfold Ile in Hle.
+  unfold Phi, step. fold n.
+  destruct (s_pc s) eqn:Epc; try congruence.
+  - (* PHead *)
+    unfold phi at 2. rewrite Epc.
+    destruct (s_i s <? n) eqn:Em.
+    + destruct (workers c <=? length (s_waiting s)) eqn:Ef; unfold phi; simpl; rewrite ?Em, ?Ef; lia.
+    + unfold phi; simpl. lia.
+  - (* PWait *)
+    unfold phi at 2. rewrite Epc.
+    destruct (sync_frame s true true PCheck) as (Hi & Hs & Hp & Hl & Hw).
+    destruct (s_sched s) as [| d r] eqn:Es.
+    + assert (He : s_waiting (sync c s true true PCheck) = []).
+      { apply sync_default_empties; [exact Es|]. intros j Hj. split; [auto|].
+        specialize (Hws j Hj). unfold Iorder in Hord. rewrite Hord in Hws.
+        apply in_rev, in_seq in Hws. lia. }
+      unfold phi. rewrite Hp, He, Hi, Hl. simpl length.
+      assert (Hf : (workers c <=? 0) = false) by (apply Nat.leb_gt; lia). rewrite Hf. lia.
+    + pose proof (phi_le (sync c s true true PCheck)). rewrite Hi, Hl. simpl length. lia.
+  - (* PCheck *)
+    unfold phi at 2. rewrite Epc.
+    destruct (stop_cond c s).
+    + unfold phi. simpl. destruct (workers c <=? _); lia.
+    + unfold phi. simpl. destruct (workers c <=? length (s_waiting s)); destruct (s_i s <? n); lia.
+  - (* PSubmit *)
+    unfold phi at 2. rewrite Epc.
+    destruct (length (s_waiting s) <? workers c) eqn:Ew; cbn [andb].
+    + destruct (s_i s <? n) eqn:Em.
+      * apply Nat.ltb_lt in Em.
+        destruct (sync_frame (submit c s) false false PSubmit) as (Hi & _ & _ & Hl & _).
+        pose proof (phi_le (sync c (submit c s) false false PSubmit)).
+        rewrite Hi, Hl. simpl.
+        assert (Hf : (workers c <=? length (s_waiting s)) = false)
+          by (apply Nat.leb_gt; apply Nat.ltb_lt in Ew; lia).
+        rewrite Hf. lia.
+      * unfold phi. simpl. rewrite Em. lia.
+    + assert (Hf : (workers c <=? length (s_waiting s)) = true)
+        by (apply Nat.leb_le; apply Nat.ltb_ge in Ew; lia).
+      unfold phi. simpl. rewrite Hf. destruct (s_i s <? n); lia.
+  - (* PAfter *)
+    unfold phi at 2. rewrite Epc.
+    destruct (sync_frame s true true PShutdown) as (Hi & _ & Hp & Hl & _).
+    unfold phi. rewrite Hp, Hi, Hl. lia.
+  - (* PShutdown *)
+    unfold phi at 2. rewrite Epc.
+    destruct (sync_frame s true false PDone) as (Hi & _ & Hp & Hl & _).
+    unfold phi. rewrite Hp, Hi, Hl. lia.
+Qed.
+
+Lemma iter_reaches_done : forall fuel s,
+  Ile s -> Iwsub s -> Iorder s -> Phi s <= fuel -> s_pc (iter c fuel s) = PDone.
+Proof.
+  induction fuel as [| f IH]; intros s Hle Hws Hord HPhi.
+  - simpl. unfold Phi in HPhi. assert (phi s = 0) by lia.
+    unfold phi in H. destruct (s_pc s); try reflexivity;
+      destruct (s_i s <? n); destruct (workers c <=? length (s_waiting s)); lia.
+  - simpl. destruct (s_pc s) eqn:Epc; try exact Epc;
+      (apply IH; [apply step_Ile; assumption | apply step_Iwsub; assumption
+                 | apply step_order; assumption
+                 | assert (Hd : Phi (step c s) < Phi s)
+                     by (apply step_decreases; try assumption; congruence); lia]).
+Qed.
+
+Lemma run_terminates sched e0 : s_pc (run c sched e0) = PDone.
+Proof.
+  unfold run. apply iter_reaches_done.
+  - unfold Ile. simpl. lia.
+  - intros j [].
+  - reflexivity.
+  - unfold Phi, fuel_for, phi. simpl. fold n.
+    destruct (0 <? n); destruct (workers c <=? 0); lia.
+Qed.
+
+End Termination.
